@@ -63,9 +63,9 @@ PROPS = {
     "C01": dict(
         lean_module="PrologVerif.Properties.C01",
         ns="PrologVerif.C01",
-        streams=[dict(name="c01.answers", quick=3000, thorough=30000, no_model_compare=True, j=6),
-                 dict(name="c03.answers", quick=3000, thorough=20000, no_model_compare=True, j=6),
-                 dict(name="c04.answers", quick=3000, thorough=30000, no_model_compare=True, j=6)],
+        streams=[dict(name="c01.answers", quick=3000, thorough=20000, no_model_compare=True, j=6),
+                 dict(name="c03.answers", quick=3000, thorough=10000, no_model_compare=True, j=6),
+                 dict(name="c04.answers", quick=3000, thorough=20000, no_model_compare=True, j=6)],
         rule="one payload format '<maxAnswers> | Query | Clause | ...' and one runner (fresh interpreter, assertz of every clause, the query run through engine.Call, every answer = the query term as instantiated, at most maxAnswers, 5 s timeout). "
              "c01.answers: pure programs over 2..5 predicates of arity 0..3 with 1..4 clauses, plain or recursive over a list / peano numeral in the first argument (direct and mutual recursion; unguarded recursion in a share), arguments from shared variables, atoms, small integers, f/1 g/2 nesting <= 3, proper and partial lists; bodies of 0..3 goals among user calls, =/2, member/2, append/3, nested conjunction/disjunction without cut, call/N with partially applied closures, goals passed through variables; 1..3 query goals; non-trivial = >= 2 answers or backtracking over a clause that failed after its head had unified. "
              "c03.answers: control skeletons t/3 (+ a recursive u/2 in a third) over true, fail, !, a/1 (3 answers), b/1 (2 answers), ==, \\==, =, markers, call/1 with cut inside, \\+, once, ->, if-then-else, nested ;, left-nested conjunction, findall; ! as direct conjunct of the body or of a top-level disjunct (claimed placements) everywhere, inside nested branches / left-nested conjunctions (opaque placements) in a third of the bodies; queries that backtrack into t, keep older choice points, wrap t in findall / call / \\+ / once / if-then-else; thorough tier adds EVERY program of two clauses t(X,Y) :- Body with bodies of 0..3 goals over the alphabet {!, fail, a(X), b(Y), X==2, Y==2, once(a(X))} followed by t(0,0) (160000 programs); non-trivial = a cut written in the program is executed while an alternative is pending in its scope. "
